@@ -274,15 +274,32 @@ func (c *Ctx) rulesR3resolver() {
 			}
 		}
 		good := false
-		for _, w := range writesOfFieldIn(ts, fIdx) {
-			if w.Kind == "assign" && w.Val == idxParam {
+		var idxW []fieldWrite
+		for _, hf := range c.hostedFns(ts) {
+			idxW = append(idxW, writesOfFieldIn(hf, fIdx)...)
+		}
+		for _, w := range idxW {
+			if w.Kind == "assign" && idxParam != nil && c.hostedArg(w.Val, ts) == idxParam {
 				all := true
+				// in a helper: before every return of the helper, and the helper's
+				// call before every return of TargetStates
+				at := c.standIn(ts, w.Instr)
+				if at == nil {
+					continue
+				}
+				if w.Instr.Parent() != ts {
+					for _, r := range returnsOf(w.Instr.Parent()) {
+						if !dominatesInstr(w.Instr, r) {
+							all = false
+						}
+					}
+				}
 				for _, r := range returnsOf(ts) {
-					if !dominatesInstr(w.Instr, r) {
+					if !dominatesInstr(at, r) {
 						all = false
 					}
 				}
-				if all && len(guardsOf(w.Instr.Block())) == 0 {
+				if all && len(c.guardsHosted(w.Instr, ts)) == 0 {
 					good = true
 				}
 			}
